@@ -83,6 +83,10 @@ pub struct Scenario {
   pub hist: Vec<Step>,
   #[serde(default)]
   pub note: String,
+  /// keep using the same Session after a top-down build aborted (the caller caught the panic): later `req` acts of
+  /// that session run in it (curated scenarios only; the generator never sets it)
+  #[serde(default, skip_serializing_if = "std::ops::Not::not")]
+  pub retry: bool,
 }
 
 impl Scenario {
